@@ -170,7 +170,13 @@ func r11i(c *core.Ctx) {
 		}
 		n++
 		var bad []string
-		for _, o := range core.Origins(core.CallArgs(call)[0], core.OriginOpts{}) {
+		identity := func(cl *ssa.Call, _ int) []ssa.Value {
+			if core.CallName(cl) == "strings.Clone" { // a copy of the same text
+				return []ssa.Value{cl.Call.Args[0]}
+			}
+			return nil
+		}
+		for _, o := range core.Origins(core.CallArgs(call)[0], core.OriginOpts{ThroughCall: identity}) {
 			if p, ok := o.(*ssa.Parameter); ok && p == add.Params[1] {
 				continue
 			}
@@ -320,6 +326,12 @@ func r15k(c *core.Ctx) {
 				if isC && k.Value != nil && k.Value.Kind() == constant.String {
 					s := constant.StringVal(k.Value)
 					canon = s == canonicalHeader(s)
+				}
+				if call, isCall := core.Unspill(x.Index).(*ssa.Call); isCall {
+					switch core.CallName(call) {
+					case "net/http.CanonicalHeaderKey", "net/textproto.CanonicalMIMEHeaderKey":
+						canon = true // the key was canonicalised by the library function Get itself uses
+					}
 				}
 				c.Check(canon, fmt.Sprintf("header-read-canonical:%s#%d", core.FuncName(fn), n), x.Pos(), fn,
 					"an HTTP header is read with Get/Values, or indexed with a constant canonical name", "indexed with "+core.Expr(x.Index))
